@@ -1,7 +1,717 @@
 package main
 
-import "verif/harness/internal/corr"
+// Correspondence + oracles for the testscript script loop (C01) and UpdateScripts (C16).
+//
+// Every generated case is one script file plus a Params subset.  It is run
+//   - through the real testscript.RunT with a recording implementation of testscript.T
+//     (FailNow / Skip as panic sentinels recovered in Run, exactly as cmd/testscript does),
+//   - through the Lean model driver (gim_tsrun),
+//   - and, when it uses no custom command / condition, through the cmd/testscript binary built from /repo,
+// and the observables are compared: verdict, file:line of the first "FAIL:" log entry, the probe
+// commands that ran, the final work-directory tree, the script file bytes afterwards, the exit status.
+// The oracle is the generator itself: it builds each script from a recipe (which line fails and why,
+// where stop/skip sit, which golden entries mismatch) and so knows the expected observables by
+// construction, from a deliberately naive bookkeeping of files, directories, buffers and variables.
+
+import (
+	"bytes"
+	"errors"
+	"fmt"
+	"math/rand"
+	"os"
+	"os/exec"
+	"path/filepath"
+	"regexp"
+	"runtime"
+	"sort"
+	"strconv"
+	"strings"
+	"sync"
+
+	"github.com/rogpeppe/go-internal/testscript"
+	"github.com/rogpeppe/go-internal/txtar"
+
+	"verif/harness/internal/corr"
+	"verif/harness/internal/mdl"
+)
+
+// ---------------------------------------------------------------- cases
+
+type flags struct {
+	cont, explicitExec, unique, update, customCmds, customCond bool
+}
+
+func (f flags) String() string {
+	s := ""
+	for _, x := range []struct {
+		b bool
+		c string
+	}{{f.cont, "c"}, {f.explicitExec, "e"}, {f.unique, "n"}, {f.update, "U"}, {f.customCmds, "k"}, {f.customCond, "q"}} {
+		if x.b {
+			s += x.c
+		}
+	}
+	if s == "" {
+		return "-"
+	}
+	return s
+}
+
+func parseFlags(s string) flags {
+	return flags{cont: strings.Contains(s, "c"), explicitExec: strings.Contains(s, "e"), unique: strings.Contains(s, "n"),
+		update: strings.Contains(s, "U"), customCmds: strings.Contains(s, "k"), customCond: strings.Contains(s, "q")}
+}
+
+// cliable: cmd/testscript can only set ContinueOnError and UpdateScripts.
+func (f flags) cliable() bool { return !f.explicitExec && !f.unique && !f.customCmds && !f.customCond }
+
+// obs is what is compared between implementation, model and expectation.
+type obs struct {
+	verdict string   // pass fail skip crash
+	line    int      // first "FAIL: file:line:" entry; -1 = none
+	probes  []string // in order
+	tree    []string // sorted "d:path" / "f:path:hexdata", work dir without .tmp
+	file    []byte   // script file bytes afterwards
+	note    string   // crash value etc. (not compared)
+}
+
+func (o obs) String(before []byte) string {
+	l := "-"
+	if o.line >= 0 {
+		l = strconv.Itoa(o.line)
+	}
+	p := "-"
+	if len(o.probes) > 0 {
+		hs := make([]string, len(o.probes))
+		for i, x := range o.probes {
+			hs[i] = corr.Hx([]byte(x))
+		}
+		p = strings.Join(hs, ",")
+	}
+	t := "-"
+	if len(o.tree) > 0 {
+		t = strings.Join(o.tree, ";")
+	}
+	f := "same"
+	if !bytes.Equal(o.file, before) {
+		f = corr.Hx(o.file)
+	}
+	return "v=" + o.verdict + " line=" + l + " probes=" + p + " tree=" + t + " file=" + f
+}
+
+type tcase struct {
+	kind   string // "c01" | "c16"
+	fl     flags
+	file   []byte
+	exp    *obs   // generator's expectation (nil on replay without one)
+	recipe string // human readable
+	tags   []string
+	// c16 only
+	c16 *c16recipe
+}
+
+func (c *tcase) request() string {
+	return "run " + c.fl.String() + " " + runtime.GOOS + " " + runtime.GOARCH + " " + corr.Hx(c.file)
+}
+
+// ---------------------------------------------------------------- recording T
+
+var (
+	errSkipT = errors.New("recT: skip")
+	errFailT = errors.New("recT: fail")
+)
+
+type recT struct {
+	mu      sync.Mutex
+	log     strings.Builder
+	verdict string
+	note    string
+}
+
+func (t *recT) Skip(a ...any) { t.Log(a...); panic(errSkipT) }
+func (t *recT) Fatal(a ...any) {
+	t.Log(a...)
+	t.FailNow()
+}
+func (t *recT) Parallel() {}
+func (t *recT) Log(a ...any) {
+	t.mu.Lock()
+	defer t.mu.Unlock()
+	t.log.WriteString(fmt.Sprint(a...))
+	t.log.WriteString("\n")
+}
+func (t *recT) FailNow()      { panic(errFailT) }
+func (t *recT) Verbose() bool { return false }
+func (t *recT) Run(name string, f func(testscript.T)) {
+	defer func() {
+		switch r := recover(); r {
+		case nil:
+			t.verdict = "pass"
+		case errSkipT:
+			t.verdict = "skip"
+		case errFailT:
+			t.verdict = "fail"
+		default:
+			t.verdict = "crash"
+			t.note = fmt.Sprint(r)
+		}
+	}()
+	f(t)
+}
+
+var failLineRE = regexp.MustCompile(`(?m)^FAIL: (.*?):(\d+): `)
+
+// ---------------------------------------------------------------- running the implementation
+
+type runner struct {
+	root   string // temp root, created and removed by runTsRun
+	cliBin string
+	n      int
+	mu     sync.Mutex
+}
+
+func (r *runner) newDir() string {
+	r.mu.Lock()
+	r.n++
+	d := filepath.Join(r.root, fmt.Sprintf("c%06d", r.n))
+	r.mu.Unlock()
+	if err := os.MkdirAll(d, 0o777); err != nil {
+		panic(err)
+	}
+	return d
+}
+
+func customCmds(probes *[]string) map[string]func(ts *testscript.TestScript, neg bool, args []string) {
+	return map[string]func(ts *testscript.TestScript, neg bool, args []string){
+		"probe": func(ts *testscript.TestScript, neg bool, args []string) {
+			id := strings.Join(args, ",")
+			if neg {
+				id = "!" + id
+			}
+			*probes = append(*probes, id)
+		},
+		"failcmd": func(ts *testscript.TestScript, neg bool, args []string) {
+			ts.Fatalf("failcmd: %v", args)
+		},
+		"put": func(ts *testscript.TestScript, neg bool, args []string) {
+			if neg {
+				ts.Fatalf("unsupported: ! put")
+			}
+			if len(args) < 2 || (args[1] != "nl" && args[1] != "nonl") {
+				ts.Fatalf("usage: put out|err|file:PATH nl|nonl line...")
+			}
+			content := strings.Join(args[2:], "\n")
+			if args[1] == "nl" {
+				content += "\n"
+			}
+			switch {
+			case args[0] == "out":
+				fmt.Fprint(ts.Stdout(), content)
+			case args[0] == "err":
+				fmt.Fprint(ts.Stderr(), content)
+			case strings.HasPrefix(args[0], "file:"):
+				if err := os.WriteFile(ts.MkAbs(args[0][5:]), []byte(content), 0o666); err != nil {
+					ts.Fatalf("put: %v", err)
+				}
+			default:
+				ts.Fatalf("usage: put out|err|file:PATH nl|nonl line...")
+			}
+		},
+		// a custom command under a builtin name: runLine must never reach it
+		"exists": func(ts *testscript.TestScript, neg bool, args []string) {
+			*probes = append(*probes, "SHADOW")
+		},
+	}
+}
+
+func customCond(c string) (bool, error) {
+	switch c {
+	case "yes":
+		return true, nil
+	case "no":
+		return false, nil
+	}
+	return false, fmt.Errorf("no such condition %q", c)
+}
+
+func readTree(dir string) []string {
+	var out []string
+	filepath.Walk(dir, func(path string, info os.FileInfo, err error) error {
+		if err != nil {
+			return nil
+		}
+		rel, _ := filepath.Rel(dir, path)
+		rel = filepath.ToSlash(rel)
+		if rel == "." {
+			return nil
+		}
+		if rel == ".tmp" {
+			return filepath.SkipDir
+		}
+		if info.IsDir() {
+			out = append(out, "d:"+corr.Hx([]byte(rel)))
+		} else {
+			data, _ := os.ReadFile(path)
+			out = append(out, "f:"+corr.Hx([]byte(rel))+":"+corr.Hx(data))
+		}
+		return nil
+	})
+	sort.Strings(out)
+	return out
+}
+
+// runReal runs one script file through testscript.RunT.
+func (r *runner) runReal(fl flags, file []byte) obs {
+	dir := r.newDir()
+	script := filepath.Join(dir, "s.txt")
+	if err := os.WriteFile(script, file, 0o666); err != nil {
+		panic(err)
+	}
+	wroot := filepath.Join(dir, "work")
+	os.MkdirAll(wroot, 0o777)
+	var probes []string
+	p := testscript.Params{
+		Files:               []string{script},
+		WorkdirRoot:         wroot,
+		ContinueOnError:     fl.cont,
+		RequireExplicitExec: fl.explicitExec,
+		RequireUniqueNames:  fl.unique,
+		UpdateScripts:       fl.update,
+	}
+	if fl.customCmds {
+		p.Cmds = customCmds(&probes)
+	}
+	if fl.customCond {
+		p.Condition = customCond
+	}
+	t := &recT{}
+	func() {
+		defer func() {
+			if e := recover(); e != nil {
+				t.verdict = "crash"
+				t.note = "outside T.Run: " + fmt.Sprint(e)
+			}
+		}()
+		testscript.RunT(t, p)
+	}()
+	o := obs{verdict: t.verdict, line: -1, probes: probes, note: t.note}
+	if m := failLineRE.FindStringSubmatch(t.log.String()); m != nil {
+		n, _ := strconv.Atoi(m[2])
+		o.line = n
+		if m[1] != script {
+			o.note += " FAIL line names " + m[1]
+			o.line = -2
+		}
+	}
+	o.tree = readTree(filepath.Join(wroot, "script-s"))
+	o.file, _ = os.ReadFile(script)
+	os.RemoveAll(dir)
+	return o
+}
+
+// runCLI runs cmd/testscript on the given script files (in one invocation); it returns the exit
+// status and the bytes of the files afterwards.
+func (r *runner) runCLI(fl flags, files [][]byte) (int, [][]byte, string) {
+	dir := r.newDir()
+	tmp := filepath.Join(dir, "tmp")
+	os.MkdirAll(tmp, 0o777)
+	var args []string
+	if fl.cont {
+		args = append(args, "-continue")
+	}
+	if fl.update {
+		args = append(args, "-u")
+	}
+	var names []string
+	for i, f := range files {
+		n := filepath.Join(dir, fmt.Sprintf("s%d.txt", i))
+		os.WriteFile(n, f, 0o666)
+		names = append(names, n)
+		args = append(args, n)
+	}
+	cmd := exec.Command(r.cliBin, args...)
+	cmd.Dir = dir
+	// no `go` on PATH: cmd/testscript then skips gotooltest.Setup
+	cmd.Env = []string{"PATH=/nonexistent-dir", "TMPDIR=" + tmp, "HOME=" + dir}
+	out, err := cmd.CombinedOutput()
+	code := 0
+	if err != nil {
+		var ee *exec.ExitError
+		if errors.As(err, &ee) {
+			code = ee.ExitCode()
+		} else {
+			code = -1
+		}
+	}
+	after := make([][]byte, len(files))
+	for i, n := range names {
+		after[i], _ = os.ReadFile(n)
+	}
+	os.RemoveAll(dir)
+	return code, after, string(out)
+}
+
+func buildCLI(dir string) (string, error) {
+	repo := os.Getenv("VERIF_REPO")
+	if repo == "" {
+		repo = "/repo"
+	}
+	bin := filepath.Join(dir, "testscript")
+	cmd := exec.Command("go", "build", "-o", bin, "github.com/rogpeppe/go-internal/cmd/testscript")
+	cmd.Dir = repo
+	cmd.Env = append(os.Environ(), "GOFLAGS=-mod=mod", "GOPROXY=off", "GOSUMDB=off", "GOTOOLCHAIN=local", "CGO_ENABLED=0")
+	out, err := cmd.CombinedOutput()
+	if err != nil {
+		return "", fmt.Errorf("go build cmd/testscript: %v: %s", err, out)
+	}
+	return bin, nil
+}
+
+// ---------------------------------------------------------------- model output
+
+func parseModel(line string, before []byte) (obs, int, bool) {
+	o := obs{line: -1}
+	exit := -1
+	if !strings.HasPrefix(line, "v=") {
+		return o, exit, false
+	}
+	for _, f := range strings.Split(line, " ") {
+		k, v, _ := strings.Cut(f, "=")
+		switch k {
+		case "v":
+			o.verdict = v
+		case "line":
+			if v != "-" {
+				o.line, _ = strconv.Atoi(v)
+			}
+		case "probes":
+			if v != "-" {
+				for _, h := range strings.Split(v, ",") {
+					o.probes = append(o.probes, string(corr.Unhx(h)))
+				}
+			}
+		case "tree":
+			if v != "-" {
+				o.tree = strings.Split(v, ";")
+				sort.Strings(o.tree)
+			}
+		case "exit":
+			exit, _ = strconv.Atoi(v)
+		case "file":
+			if v == "same" {
+				o.file = before
+			} else {
+				o.file = corr.Unhx(v)
+			}
+		}
+	}
+	return o, exit, true
+}
+
+func verdictExit(v string) int {
+	switch v {
+	case "fail":
+		return 1
+	case "crash":
+		return 2
+	}
+	return 0
+}
+
+// ---------------------------------------------------------------- main entry
+
+func encodeInput(c *tcase) string {
+	s := c.kind + " " + c.fl.String() + " " + corr.Hx(c.file)
+	if c.exp != nil {
+		s += " exp:" + strings.ReplaceAll(c.exp.String(c.file), " ", "|")
+	}
+	return s
+}
+
+func decodeInput(s string) *tcase {
+	f := strings.Fields(s)
+	if len(f) < 3 {
+		return nil
+	}
+	c := &tcase{kind: f[0], fl: parseFlags(f[1]), file: corr.Unhx(f[2]), recipe: "replay"}
+	if len(f) >= 4 && strings.HasPrefix(f[3], "exp:") {
+		o, _, ok := parseModel(strings.ReplaceAll(f[3][4:], "|", " "), c.file)
+		if ok {
+			c.exp = &o
+		}
+	}
+	return c
+}
 
 func runTsRun(tier string, seed int64, model string, replay string) *corr.Result {
-	return corr.NewResult("tsrun", tier, seed)
+	res := corr.NewResult("tsrun", tier, seed)
+	rng := rand.New(rand.NewSource(seed))
+
+	root, err := os.MkdirTemp("", "tsrun-corr-")
+	if err != nil {
+		res.Observations = append(res.Observations, "cannot create temp dir: "+err.Error())
+		res.Disagree("<tempdir>", "", err.Error())
+		return res
+	}
+	defer os.RemoveAll(root)
+	if real, err := filepath.EvalSymlinks(root); err == nil {
+		root = real
+	}
+	r := &runner{root: root}
+	if r.cliBin, err = buildCLI(root); err != nil {
+		res.Observations = append(res.Observations, err.Error())
+		res.Disagree("<build cmd/testscript>", err.Error(), "")
+		return res
+	}
+
+	var cases []*tcase
+	if replay != "" {
+		c := decodeInput(replay)
+		if c == nil {
+			res.Observations = append(res.Observations, "unreadable replay input")
+			return res
+		}
+		cases = append(cases, c)
+	} else {
+		n01, n16 := 1500, 800
+		if tier == "thorough" {
+			n01, n16 = 40000, 15000
+		}
+		cases = append(cases, corpusCases()...)
+		for i := 0; i < n01; i++ {
+			cases = append(cases, genC01(rng))
+		}
+		for i := 0; i < n16; i++ {
+			cases = append(cases, genC16(rng))
+		}
+	}
+
+	// ---- model
+	reqs := make([]string, len(cases))
+	for i, c := range cases {
+		reqs[i] = c.request()
+	}
+	modelOut, err := mdl.Run(model, nil, reqs, 0)
+	if err != nil {
+		res.Observations = append(res.Observations, "model driver error: "+err.Error())
+		res.Disagree("<driver>", "", err.Error())
+		return res
+	}
+
+	// ---- implementation (in-process RunT, then the CLI), in parallel; results by index
+	impl := make([]obs, len(cases))
+	cliExit := make([]int, len(cases))
+	cliFile := make([][]byte, len(cases))
+	cliOut := make([]string, len(cases))
+	rerun := make([]*obs, len(cases)) // c16: second run without UpdateScripts, on the updated file
+	var wg sync.WaitGroup
+	sem := make(chan struct{}, runtime.NumCPU())
+	for i := range cases {
+		wg.Add(1)
+		sem <- struct{}{}
+		go func(i int) {
+			defer wg.Done()
+			defer func() { <-sem }()
+			c := cases[i]
+			impl[i] = r.runReal(c.fl, c.file)
+			cliExit[i] = -100
+			if c.fl.cliable() {
+				code, after, out := r.runCLI(c.fl, [][]byte{c.file})
+				cliExit[i], cliFile[i], cliOut[i] = code, after[0], out
+			}
+			if c.kind == "c16" && c.fl.update {
+				fl2 := c.fl
+				fl2.update = false
+				o2 := r.runReal(fl2, impl[i].file)
+				rerun[i] = &o2
+			}
+		}(i)
+	}
+	wg.Wait()
+
+	// ---- compare
+	seen := map[string]bool{}
+	nontrivial := 0
+	for i, c := range cases {
+		in := encodeInput(c)
+		key := c.fl.String() + " " + string(c.file)
+		first := !seen[key]
+		seen[key] = true
+		mo, mexit, ok := parseModel(modelOut[i], c.file)
+		implLine := impl[i].String(c.file)
+		if !ok {
+			res.Disagree(reqs[i], implLine, modelOut[i])
+			res.Distribution["model:"+strings.SplitN(modelOut[i], " ", 2)[0]]++
+		} else {
+			if ms := mo.String(c.file); ms != implLine {
+				res.Disagree(reqs[i], implLine+" "+impl[i].note, ms)
+			}
+			if cliExit[i] != -100 {
+				if cliExit[i] != mexit {
+					res.Disagree(reqs[i]+" [cli]", fmt.Sprintf("exit=%d", cliExit[i]), fmt.Sprintf("exit=%d", mexit))
+				}
+				if !bytes.Equal(cliFile[i], mo.file) {
+					res.Disagree(reqs[i]+" [cli file]", corr.Hx(cliFile[i]), corr.Hx(mo.file))
+				}
+			}
+		}
+		for _, t := range c.tags {
+			res.Distribution[c.kind+":"+t]++
+		}
+		res.Distribution[c.kind+":verdict="+impl[i].verdict]++
+		res.Distribution[c.kind+":flags="+c.fl.String()]++
+
+		// oracle 1 (C01): the generator's expectation
+		if c.exp != nil {
+			prop := "C01"
+			if c.kind == "c16" {
+				prop = "C16"
+			}
+			res.OracleChecked[prop]++
+			if es := c.exp.String(c.file); es != implLine {
+				class := "observables-differ"
+				switch {
+				case c.exp.verdict != impl[i].verdict:
+					class = "verdict-" + c.exp.verdict + "-reported-" + impl[i].verdict
+				case c.exp.line != impl[i].line:
+					class = "wrong-line"
+				case !bytes.Equal(c.exp.file, impl[i].file):
+					class = "script-file-differs"
+				}
+				res.Violate(prop, in, "expected "+es+" got "+implLine+" "+impl[i].note+" ["+c.recipe+"]", class)
+			}
+		}
+		// oracle 2 (C01): the exit status of the standalone command
+		if cliExit[i] != -100 {
+			res.OracleChecked["C01"]++
+			want := verdictExit(impl[i].verdict)
+			if c.exp != nil {
+				want = verdictExit(c.exp.verdict)
+			}
+			if cliExit[i] != want {
+				res.Violate("C01", in, fmt.Sprintf("cmd/testscript exit status %d, want %d (RunT verdict %s): %s", cliExit[i], want, impl[i].verdict, lastLines(cliOut[i], 3)), "cli-exit-status")
+			}
+		}
+		// oracle 3 (C16): frame + fix-point, stated on the parsed archives
+		if c.kind == "c16" {
+			c16Oracle(res, c, in, impl[i], rerun[i])
+		}
+		if first && len(c.tags) > 0 && c.tags[0] == "nontrivial" {
+			nontrivial++
+		}
+	}
+
+	// ---- several scripts in one cmd/testscript invocation
+	if replay == "" {
+		multiCLI(res, r, rng, cases, impl, model)
+	}
+
+	res.Evaluations = len(cases)
+	res.DistinctNontrivial = nontrivial
+	res.Rule = "distinct (flags, script file) cases whose recipe contains at least one of: a line built to fail, stop, skip, a [cond] guard, a negated command, a custom command, or (C16) a golden entry compared under UpdateScripts; each case is run through testscript.RunT with a recording T, through the Lean model and (builtin-only cases) through the cmd/testscript binary, and verdict, first FAIL line, probe trace, final tree, script bytes and exit status are compared with the model and with the expectation the generator derived from its recipe"
+	for _, i := range []int{0, 1, len(cases) / 3, len(cases) / 2, len(cases) - 1} {
+		if i >= 0 && i < len(cases) {
+			res.Samples = append(res.Samples, map[string]string{"case": reqs[i], "script": string(cases[i].file), "recipe": cases[i].recipe, "impl": impl[i].String(cases[i].file), "model": modelOut[i]})
+		}
+	}
+	return res
+}
+
+func lastLines(s string, n int) string {
+	l := strings.Split(strings.TrimRight(s, "\n"), "\n")
+	if len(l) > n {
+		l = l[len(l)-n:]
+	}
+	return strings.Join(l, " / ")
+}
+
+// multiCLI: groups of builtin-only scripts in one invocation; exit 0 iff none failed.
+func multiCLI(res *corr.Result, r *runner, rng *rand.Rand, cases []*tcase, impl []obs, model string) {
+	var idx []int
+	for i, c := range cases {
+		if c.fl.cliable() && !c.fl.update && !c.fl.cont && impl[i].verdict != "crash" {
+			idx = append(idx, i)
+		}
+	}
+	if len(idx) < 4 {
+		return
+	}
+	groups := 60
+	type grp struct{ members []int }
+	var gs []grp
+	for g := 0; g < groups; g++ {
+		k := 2 + rng.Intn(3)
+		var m []int
+		for j := 0; j < k; j++ {
+			m = append(m, idx[rng.Intn(len(idx))])
+		}
+		gs = append(gs, grp{m})
+	}
+	var reqs []string
+	for _, g := range gs {
+		var vs []string
+		for _, i := range g.members {
+			vs = append(vs, impl[i].verdict)
+		}
+		reqs = append(reqs, "cli "+strings.Join(vs, ","))
+	}
+	out, err := mdl.Run(model, nil, reqs, 1)
+	if err != nil {
+		res.Disagree("<driver cli>", "", err.Error())
+		return
+	}
+	codes := make([]int, len(gs))
+	var wg sync.WaitGroup
+	for gi := range gs {
+		wg.Add(1)
+		go func(gi int) {
+			defer wg.Done()
+			var files [][]byte
+			for _, i := range gs[gi].members {
+				files = append(files, cases[i].file)
+			}
+			codes[gi], _, _ = r.runCLI(flags{}, files)
+		}(gi)
+	}
+	wg.Wait()
+	for gi, g := range gs {
+		res.Distribution["cli-multi"]++
+		if got := fmt.Sprintf("exit=%d", codes[gi]); got != out[gi] {
+			res.Disagree(reqs[gi], got, out[gi])
+		}
+		res.OracleChecked["C01"]++
+		anyFail := false
+		for _, i := range g.members {
+			if impl[i].verdict == "fail" {
+				anyFail = true
+			}
+		}
+		if (codes[gi] == 0) == anyFail {
+			var ins []string
+			for _, i := range g.members {
+				ins = append(ins, corr.Hx(cases[i].file))
+			}
+			res.Violate("C01", "cli-multi "+strings.Join(ins, ","), fmt.Sprintf("exit status %d with verdicts %s", codes[gi], reqs[gi]), "cli-exit-status-multi")
+		}
+	}
+}
+
+// corpusCases: witnesses of past findings, always run first.
+func corpusCases() []*tcase {
+	mk := func(kind string, fl flags, file string, exp obs, recipe string) *tcase {
+		exp.file = []byte(file)
+		if exp.verdict == "" {
+			return &tcase{kind: kind, fl: fl, file: []byte(file), recipe: recipe, tags: []string{"nontrivial", "corpus"}}
+		}
+		return &tcase{kind: kind, fl: fl, file: []byte(file), exp: &exp, recipe: recipe, tags: []string{"nontrivial", "corpus"}}
+	}
+	return []*tcase{
+		// fixed 45bab20: skip after a failed line hid the failure
+		mk("c01", flags{cont: true}, "exists nothing\nskip\n", obs{verdict: "fail", line: 1}, "regression: line 1 fails, line 2 skip, ContinueOnError"),
+		mk("c01", flags{}, "exists nothing\nskip\n", obs{verdict: "fail", line: 1}, "line 1 fails, no ContinueOnError"),
+		mk("c01", flags{cont: true}, "skip\nexists nothing\n", obs{verdict: "skip", line: -1}, "skip before the failing line"),
+		mk("c01", flags{cont: true}, "# phase\nexists nothing\n\n# next\nstop done\nexists nothing\n", obs{verdict: "fail", line: 2}, "failure, then stop, ContinueOnError"),
+		// fixed 26d8675: an update that cannot be quoted escaped as panic(failNow)
+		mk("c01", flags{update: true, customCmds: true}, "put out nonl a '-- x --'\ncmp stdout g\n-- g --\nx\n", obs{verdict: "fail", line: 2}, "regression: unquotable update content"),
+	}
 }
